@@ -43,6 +43,7 @@ type Spec struct {
 	Edits    []Edit            `json:"edits,omitempty"`
 	Faults   []*Fault          `json:"faults,omitempty"`
 	CrashAt  int               `json:"crash_at,omitempty"` // stop at the n-th mutating op (process crash); 0 = never
+	CrashTear string           `json:"crash_tear,omitempty"` // "", "short", "zerotail": state of the write in flight at the crash
 	Trace    []string          `json:"trace,omitempty"`    // explicit schedule to follow (replay)
 	FullOps  bool              `json:"full_ops,omitempty"`
 	NoTree   bool              `json:"no_tree,omitempty"`
@@ -137,6 +138,39 @@ func expandEdits(edits []Edit) []editStep {
 }
 
 // Run executes one simulated process.  It must be called from inside a synctest bubble.
+// tearLastWrite models what a crash leaves of the write that was in flight: "short" keeps only
+// the first half of the bytes of that write; "zerotail" keeps the file length (size metadata
+// reached the disk) but the second half of the written range reads back as zeroes (its data
+// blocks did not).  Anything else: the write is complete.
+func tearLastWrite(how string) {
+	if how != "short" && how != "zerotail" {
+		return
+	}
+	for i := len(OpLog) - 1; i >= 0; i-- {
+		o := OpLog[i]
+		if !o.Mut {
+			continue
+		}
+		if o.Op != "write" || o.N < 2 {
+			return
+		}
+		n, e := TheFS.lookup(o.Path, true, 0)
+		if e != 0 || n.Kind != KFile || len(n.Data) < o.N {
+			return
+		}
+		from := len(n.Data) - o.N + o.N/2
+		if how == "short" {
+			n.Data = n.Data[:from]
+		} else {
+			for j := from; j < len(n.Data); j++ {
+				n.Data[j] = 0
+			}
+		}
+		Probe("crash_tore_write_" + how)
+		return
+	}
+}
+
 func Run(spec *Spec, mainFn func()) *Result {
 	res := &Result{Probes: Probes}
 	r := &rng{s: spec.Seed*0x9E3779B97F4A7C15 + 1}
@@ -311,6 +345,7 @@ func Run(spec *Spec, mainFn func()) *Result {
 			return finish("exited")
 		}
 		if spec.CrashAt > 0 && mutCount() >= spec.CrashAt {
+			tearLastWrite(spec.CrashTear)
 			return finish("crashed")
 		}
 		if step >= spec.MaxSteps {
